@@ -226,7 +226,14 @@ impl ConnectionState {
                     code: close.reply_code,
                     message: close.reply_text.clone(),
                 };
-                send(&slot.tx, Err(make_err()))?;
+                // Disconnect the channel's request queue before telling its handle about the
+                // close; otherwise a call issued right after the handle saw the error could
+                // still be accepted (and silently discarded) instead of failing.
+                let ChannelSlot {
+                    rx, tx: slot_tx, ..
+                } = slot;
+                drop(rx);
+                send(&slot_tx, Err(make_err()))?;
                 for (_, tx) in slot.consumers.drain() {
                     send(&tx, ConsumerMessage::ServerClosedChannel(make_err()))?;
                 }
